@@ -13,6 +13,11 @@ Notation store := (store V).
 Notation item := (item V).
 
 Hypothesis H_ttl : c05_insert_ttl = 0%Z.
+(* apply2.store hands rec.isNew on unchanged, for every kind of record *)
+Hypothesis H_kinds : c05_store_put_kinds = [].
+
+Lemma batch_new_is_new (it : item) : batch_new it = it_new it.
+Proof. unfold batch_new, store_as_update. rewrite H_kinds. cbn. apply andb_true_r. Qed.
 
 Definition key (it : item) : bytes * bytes := (it_pk it, it_cc it).
 
@@ -71,7 +76,7 @@ Lemma write_violation cond now (items : list item) : forall (st : store) it,
 Proof.
   induction items as [|h r IH]; intros st it Hin Hc Hf; [destruct Hin|].
   rewrite write_items_cons. destruct (cond h && found now st h) eqn:E; [reflexivity|].
-  destruct Hin as [->|Hin]; [rewrite Hc, Hf in E; discriminate|].
+  destruct Hin as [->|Hin]; [rewrite Hc, Hf in E; discriminate E|].
   eapply IH; eauto. apply found_put. exact Hf.
 Qed.
 
@@ -158,7 +163,7 @@ Proof.
   intros L Ha Fa Hb Fb.
   assert (Ia : In a (filter f l)) by (apply filter_In; auto).
   assert (Ib : In b (filter f l)) by (apply filter_In; auto).
-  destruct (filter f l) as [|x [|y t]]; cbn in L; try discriminate.
+  destruct (filter f l) as [|x [|y t]]; cbn in L; try discriminate L.
   destruct Ia as [<-|[]]. destruct Ib as [<-|[]]. reflexivity.
 Qed.
 
@@ -307,13 +312,13 @@ Proof.
   unfold run_step, items_of in Run. rewrite Er. rewrite Dcorr in Run.
   destruct (s_kind s) eqn:K; try reflexivity.
   - (* PutPlog *)
-    destruct (map sl_it (s_slots s)) as [|it [|? ?]] eqn:Its; try discriminate. split_run Run.
+    destruct (map sl_it (s_slots s)) as [|it [|? ?]] eqn:Its; try discriminate Run. split_run Run.
     destruct (log_code_table KPlog trust T I) as [NP Tab]. unfold run_log in *. rewrite NP in *. rewrite <- Its in *. rewrite <- Eb.
     apply engine_judge.
     + intros sl _. unfold log_cond. rewrite Tab. reflexivity.
     + exact Ho.
   - (* PutWlog *)
-    destruct (map sl_it (s_slots s)) as [|it [|? ?]] eqn:Its; try discriminate. split_run Run.
+    destruct (map sl_it (s_slots s)) as [|it [|? ?]] eqn:Its; try discriminate Run. split_run Run.
     destruct (log_code_table KWlog trust T I) as [NP Tab]. unfold run_log in *. rewrite NP in *. rewrite <- Its in *. rewrite <- Eb.
     apply engine_judge.
     + intros sl _. unfold log_cond. rewrite Tab. reflexivity.
@@ -327,7 +332,7 @@ Proof.
     + change (@nil item) with (map sl_it (@nil slot)) in Its.
       destruct (s_slots s); [|discriminate]. rewrite <- Eb. reflexivity.
     + rewrite NP in *. rewrite <- Its in *. rewrite <- Eb. apply engine_judge.
-      * intros sl _. unfold rec_cond. apply Tab.
+      * intros sl _. unfold rec_cond. rewrite batch_new_is_new. apply Tab.
       * exact Ho.
   - (* ApplyRecords of the re-applier *)
     split_run Run.
@@ -337,10 +342,10 @@ Proof.
     destruct (map sl_it (s_slots s)) as [|i0 r0] eqn:Its.
     + destruct (s_slots s); [|discriminate]. rewrite <- Eb. reflexivity.
     + rewrite NP in *. rewrite <- Its in *. rewrite <- Eb. apply engine_judge.
-      * intros sl _. unfold rec_cond. apply Tab.
+      * intros sl _. unfold rec_cond. rewrite batch_new_is_new. apply Tab.
       * exact Ho.
   - (* PutWLog of the re-applier *)
-    destruct (map sl_it (s_slots s)) as [|it [|? ?]] eqn:Its; try discriminate. split_run Run.
+    destruct (map sl_it (s_slots s)) as [|it [|? ?]] eqn:Its; try discriminate Run. split_run Run.
     destruct (log_code_table KReapplyWlog trust T I) as [NP Tab]. unfold run_log in *. rewrite NP in *. rewrite <- Its in *. rewrite <- Eb.
     apply engine_judge.
     + intros sl _. unfold log_cond. rewrite Tab. reflexivity.
@@ -441,7 +446,7 @@ Proof.
   intros L Hin Hn G. unfold run_recs. rewrite L. cbn [negb]. rewrite rec_code_apply0.
   destruct items as [|h r]; [destruct Hin|]. change (1 <? 1) with false. cbn iota.
   apply (write_violation _ now (h :: r) st it Hin);
-    [unfold rec_cond; rewrite Hn; reflexivity | eapply found_some; eauto].
+    [unfold rec_cond; rewrite batch_new_is_new, Hn; reflexivity | eapply found_some; eauto].
 Qed.
 
 (* ... and the stored row is intact bit for bit, whatever else the event writes, unless the same
@@ -453,7 +458,7 @@ Theorem existing_entry_intact_proved now (st : store) (items : list item) pk cc 
 Proof.
   intros G Hall. unfold run_recs. destruct (negb (loads_ok now st items)); [reflexivity|].
   rewrite rec_code_apply0. destruct items as [|h r]; [reflexivity|]. change (1 <? 1) with false. cbn iota.
-  apply write_keeps_guarded; [exact G|]. intros it Hin Hk. unfold rec_cond. rewrite (Hall it Hin Hk). reflexivity.
+  apply write_keeps_guarded; [exact G|]. intros it Hin Hk. unfold rec_cond. rewrite batch_new_is_new, (Hall it Hin Hk). reflexivity.
 Qed.
 
 (* every level and re-apply: when no guarded row aims at an existing record (in particular: an
@@ -470,7 +475,7 @@ Proof.
   assert (Tb : (trust <=? 2) = true) by (apply N.leb_le; exact T).
   destruct (rec_code_table k trust Tb) as [NP Tab]; [destruct K as [-> | ->]; exact I|].
   rewrite NP. apply write_all_ok; [exact ND|].
-  intros it Hin C. apply Hfree; [exact Hin|]. rewrite <- Tab. exact C.
+  intros it Hin C. apply Hfree; [exact Hin|]. rewrite <- Tab. unfold rec_cond in C. rewrite batch_new_is_new in C. exact C.
 Qed.
 
 Corollary updates_always_succeed_proved k trust now (st : store) (items : list item) :
